@@ -234,6 +234,13 @@ def sites_in_function(f, st_types):
             elif isinstance(fn, ast.Attribute) and fn.attr in ("extend",) and n.args and is_set(n.args[0]):
                 out.append({"node": n, "kind": "call", "consumer": f"extend({norm(n.args[0])})", "verdict": "sensitive?",
                             "set_expr": norm(n.args[0]), "why": "list extended in set iteration order"})
+        elif isinstance(n, ast.AugAssign) and isinstance(n.op, ast.Add) and is_set(n.value) and not is_set(n.target):
+            out.append({"node": n, "kind": "augadd", "consumer": f"{norm(n.target)} += {norm(n.value)}", "verdict": "sensitive?", "set_expr": norm(n.value),
+                        "why": "sequence extended in set iteration order"})
+        elif isinstance(n, ast.BinOp) and isinstance(n.op, ast.Add) and (is_set(n.right) != is_set(n.left)) and \
+                (isinstance(n.left, (ast.List, ast.Name)) or isinstance(n.right, (ast.List, ast.Name))) and \
+                any(isinstance(x, ast.Call) and getattr(x.func, "id", "") in ("list", "tuple") for x in (n.left, n.right)):
+            pass
         elif isinstance(n, ast.Starred) and is_set(n.value):
             out.append({"node": n, "kind": "star", "consumer": f"*{norm(n.value)}", "verdict": "sensitive?", "set_expr": norm(n.value),
                         "why": "unpacking in set iteration order"})
